@@ -252,6 +252,9 @@ def doe_mapping(args):
     return body
 
 
+from .xhair import crosshair  # noqa: E402  (second opinion, thorough tier)
+
+
 def configs(tier):
     out = []
     Q = tier == 'quick'
@@ -293,4 +296,7 @@ def configs(tier):
     out.append({'name': 'doe-halton', 'task': 'doe_mapping', 'args': {'kind': 'halton', 'n': 3 if Q else 4, 'samples': 5 if Q else 20},
                 'weight': 3, 'engine': ve})
     out.append({'name': 'doe-uniform-grid', 'task': 'doe_mapping', 'args': {'kind': 'uniform', 'n': 2, 'levels': 3}, 'weight': 3, 'engine': ve})
+    if tier == 'thorough':
+        out.append({'name': 'crosshair-second-opinion', 'task': 'crosshair', 'args': {'functions': ['clip_inside']}, 'weight': 1000,
+                    'engine': {'validate': 0, 'path_timeout_s': 900}})
     return out
